@@ -1330,68 +1330,147 @@ Proof.
     eapply IH; eassumption.
 Qed.
 
-(* the content loop keeps of a piece exactly what it denotes *)
-Lemma opiece_steps : forall cname val p s first, legal_opiece p = true ->
-  od_steps cname val (OdMain s first) (opiece_events p) = Some (OdMain (s ++ opiece_text p) first).
+(* read_to_end_into(name) inside the content loop: the nesting depth runs as sub_depth says *)
+Lemma sub_steps : forall cname val name body d d' s first paras,
+  sub_depth name body d = Some d' ->
+  od_steps cname val (OdSub name d s first paras) body = Some (OdSub name d' s first paras).
 Proof.
-  intros cname val p s first Hl.
-  destruct p as [t|t|[c|]| | |st| |]; cbn [opiece_events od_steps od_step opiece_text];
-    sc; rewrite ?app_nil_r; try reflexivity.
-  - (* text:s with text:c *)
-    cbn [get_attribute]. sc. cbn [legal_opiece] in Hl.
-    destruct (parse_i32 c) as [k|]; [reflexivity|discriminate].
+  induction body as [|e body IH]; intros d d' s first paras H; cbn [sub_depth] in H.
+  - inversion H. reflexivity.
+  - cbn [od_steps]. destruct e as [n a|n|t|t|]; cbn [od_step]; try (apply IH; exact H).
+    + destruct (str_eqb n name); apply IH; exact H.
+    + destruct (str_eqb n name); [|apply IH; exact H].
+      destruct (d =? 0); [discriminate|]. apply IH. exact H.
 Qed.
 
-Lemma opieces_steps : forall cname val ps s first, forallb legal_opiece ps = true ->
-  od_steps cname val (OdMain s first) (flat_map opiece_events ps) =
-  Some (OdMain (s ++ para_text ps) first).
+(* a whole element <name>body</name> whose subtree is skipped leaves the content loop where it was *)
+Lemma subtree_steps : forall cname val name a body s first paras,
+  skipped_subtree name = true -> str_eqb name o_annot = false -> sub_ok name body = true ->
+  od_steps cname val (OdMain s first paras) (Start name a :: body ++ [End name]) =
+  Some (OdMain s first paras).
 Proof.
-  induction ps as [|p ps IH]; intros s first H.
+  intros cname val name a body s first paras Hk Ha Hb.
+  cbn [od_steps od_step]. rewrite Ha, Hk.
+  unfold sub_ok in Hb. destruct (sub_depth name body 0) as [d|] eqn:E; [|discriminate].
+  destruct d; [|discriminate].
+  eapply od_steps_app; [apply sub_steps; exact E|].
+  cbn [od_steps od_step]. rewrite str_eqb_refl. reflexivity.
+Qed.
+
+Lemma starts_with_length : forall p n, starts_with p n = true -> (length p <= length n)%nat.
+Proof.
+  induction p as [|x p IH]; intros [|y n] H; cbn [starts_with length] in *; try lia; try discriminate.
+  apply andb_true_iff in H. destruct H as [_ H]. apply IH in H. lia.
+Qed.
+
+Lemma starts_with_head : forall x p y n, starts_with (x :: p) (y :: n) = true -> x = y.
+Proof. intros x p y n H. cbn [starts_with] in H. apply andb_true_iff in H. apply N.eqb_eq. tauto. Qed.
+
+(* a drawing object is none of the elements the content loop knows by name *)
+Lemma drawing_not_annot : forall n, is_drawing n = true -> str_eqb n o_annot = false.
+Proof.
+  intros n H. unfold is_drawing in H. apply orb_true_iff in H.
+  destruct n as [|c n]; [destruct H; discriminate|].
+  destruct (str_eqb (c :: n) o_annot) eqn:E; [|reflexivity].
+  assert (c = 111) as -> by (unfold o_annot in E; cbn [str_eqb] in E; apply andb_true_iff in E;
+                            apply N.eqb_eq; tauto).
+  destruct H as [H|H]; apply starts_with_head in H; discriminate.
+Qed.
+
+Lemma drawing_skipped : forall n, is_drawing n = true -> skipped_subtree n = true.
+Proof. intros n H. unfold skipped_subtree. unfold is_drawing in H. rewrite H. reflexivity. Qed.
+
+(* the content loop keeps of a piece exactly what it denotes (inside a paragraph) *)
+Lemma opiece_steps : forall cname val p s first paras, legal_opiece p = true -> 0 < paras ->
+  od_steps cname val (OdMain s first paras) (opiece_events p) =
+  Some (OdMain (s ++ opiece_text p) first paras).
+Proof.
+  intros cname val p s first paras Hl Hp.
+  assert (Hp' : (0 <? paras) = true) by (apply N.ltb_lt; exact Hp).
+  destruct p as [t|t|[c|]| | |st| | |st| | | |st body|n a body].
+  15: { (* a drawing object inside the paragraph *)
+    cbn [opiece_events opiece_text legal_opiece] in *. rewrite app_nil_r.
+    apply andb_true_iff in Hl. destruct Hl as [Hd Hb].
+    apply subtree_steps; [apply drawing_skipped; exact Hd | apply drawing_not_annot; exact Hd | exact Hb]. }
+  14: { (* text:ruby-text *)
+    cbn [opiece_events opiece_text legal_opiece] in *. rewrite app_nil_r.
+    apply subtree_steps; [reflexivity|reflexivity|exact Hl]. }
+  all: cbn [opiece_events od_steps od_step opiece_text];
+    rewrite ?Hp'; sc; rewrite ?app_nil_r; try reflexivity.
+  (* text:s with text:c *)
+  cbn [get_attribute]. sc. cbn [legal_opiece] in Hl.
+  destruct (parse_i32 c) as [k|]; [reflexivity|discriminate].
+Qed.
+
+Lemma opieces_steps : forall cname val ps s first paras, forallb legal_opiece ps = true -> 0 < paras ->
+  od_steps cname val (OdMain s first paras) (flat_map opiece_events ps) =
+  Some (OdMain (s ++ para_text ps) first paras).
+Proof.
+  induction ps as [|p ps IH]; intros s first paras H Hp.
   - cbn. rewrite app_nil_r. reflexivity.
   - cbn [forallb] in H. apply andb_true_iff in H. destruct H as [H1 H2].
-    cbn [flat_map]. eapply od_steps_app; [apply opiece_steps; exact H1|].
-    rewrite (IH _ first H2). unfold para_text. cbn [flat_map]. rewrite app_assoc. reflexivity.
+    cbn [flat_map]. eapply od_steps_app; [apply opiece_steps; [exact H1|exact Hp]|].
+    rewrite (IH _ first paras H2 Hp). unfold para_text. cbn [flat_map]. rewrite app_assoc. reflexivity.
 Qed.
 
-Lemma annot_body_steps : forall cname val body s first,
+Lemma annot_body_steps : forall cname val body s first paras,
   forallb (event_not_end o_annot) body = true ->
-  od_steps cname val (OdAnnot s first) body = Some (OdAnnot s first).
+  od_steps cname val (OdAnnot s first paras) body = Some (OdAnnot s first paras).
 Proof.
-  induction body as [|e body IH]; intros s first H; [reflexivity|].
+  induction body as [|e body IH]; intros s first paras H; [reflexivity|].
   cbn [forallb] in H. apply andb_true_iff in H. destruct H as [H1 H2].
   cbn [od_steps]. destruct e as [n a|n|t|t|]; cbn [od_step event_not_end] in *;
     try (apply IH; exact H2).
   destruct (str_eqb n o_annot); [discriminate|]. apply IH. exact H2.
 Qed.
 
-(* state of the content loop after one child of the cell *)
+(* state of the content loop after one child of the cell: only a paragraph changes it *)
 Definition citem_after (sf : str * bool) (c : citem) : str * bool :=
   match c with
   | CPara ps => ((if snd sf then fst sf else fst sf ++ [10]) ++ para_text ps, false)
-  | CAnnot _ => sf
+  | _ => sf
   end.
 
-Lemma citem_steps : forall cname val c s first, legal_citem c = true ->
-  od_steps cname val (OdMain s first) (citem_events c) =
-  Some (OdMain (fst (citem_after (s, first) c)) (snd (citem_after (s, first) c))).
+(* between the children of the cell no paragraph is open ([paras] is what it was: 0 at the top) *)
+Lemma citem_steps : forall cname val c s first paras, legal_citem c = true ->
+  od_steps cname val (OdMain s first paras) (citem_events c) =
+  Some (OdMain (if 0 <? paras
+                then match c with CWs ws => fst (citem_after (s, first) c) ++ ws | _ => fst (citem_after (s, first) c) end
+                else fst (citem_after (s, first) c))
+               (snd (citem_after (s, first) c)) paras).
 Proof.
-  intros cname val [ps|body] s first Hl; cbn [citem_events legal_citem citem_after fst snd] in *.
+  intros cname val [ps|body|ws| |n a body] s first paras Hl;
+    cbn [citem_events legal_citem citem_after fst snd] in *.
   - cbn [od_steps od_step]. sc.
+    assert (Hp : 0 < paras + 1) by lia.
+    assert (Hback : paras + 1 - 1 = paras) by lia.
     destruct first; cbv beta iota;
-      (eapply od_steps_app; [apply opieces_steps; exact Hl | cbn [od_steps od_step]; sc; reflexivity]).
+      (eapply od_steps_app; [apply opieces_steps; [exact Hl|exact Hp] |
+                             cbn [od_steps od_step]; sc; rewrite Hback; destruct (0 <? paras); reflexivity]).
   - cbn [od_steps od_step]. sc.
     eapply od_steps_app; [apply annot_body_steps; exact Hl|].
-    cbn [od_steps od_step]. sc. reflexivity.
+    cbn [od_steps od_step]. sc. destruct (0 <? paras); reflexivity.
+  - cbn [od_steps od_step]. destruct (0 <? paras); reflexivity.
+  - cbn [od_steps od_step]. destruct (0 <? paras); reflexivity.
+  - apply andb_true_iff in Hl. destruct Hl as [Hd Hb].
+    rewrite subtree_steps;
+      [destruct (0 <? paras); reflexivity | apply drawing_skipped; exact Hd
+       | apply drawing_not_annot; exact Hd | exact Hb].
 Qed.
 
+Lemma citem_steps0 : forall cname val c s first, legal_citem c = true ->
+  od_steps cname val (OdMain s first 0) (citem_events c) =
+  Some (OdMain (fst (citem_after (s, first) c)) (snd (citem_after (s, first) c)) 0).
+Proof. intros. rewrite citem_steps by assumption. reflexivity. Qed.
+
 Lemma content_steps : forall cname val cs s first, legal_content cs = true ->
-  od_steps cname val (OdMain s first) (content_events cs) =
-  Some (OdMain (fst (fold_left citem_after cs (s, first))) (snd (fold_left citem_after cs (s, first)))).
+  od_steps cname val (OdMain s first 0) (content_events cs) =
+  Some (OdMain (fst (fold_left citem_after cs (s, first))) (snd (fold_left citem_after cs (s, first))) 0).
 Proof.
   induction cs as [|c cs IH]; intros s first H; [reflexivity|].
   unfold legal_content in *. cbn [forallb] in H. apply andb_true_iff in H. destruct H as [H1 H2].
   unfold content_events in *. cbn [flat_map fold_left].
-  eapply od_steps_app; [apply citem_steps; exact H1|].
+  eapply od_steps_app; [apply citem_steps0; exact H1|].
   rewrite IH by exact H2. destruct (citem_after (s, first) c). reflexivity.
 Qed.
 
@@ -1410,19 +1489,18 @@ Lemma fold_citem_after_false : forall cs s,
 Proof.
   induction cs as [|c cs IH]; intro s.
   - cbn. rewrite app_nil_r. reflexivity.
-  - cbn [fold_left]. destruct c as [ps|body]; cbn [citem_after fst snd].
-    + rewrite IH. unfold paras_of. cbn [flat_map app map]. rewrite <- !app_assoc. reflexivity.
-    + rewrite IH. reflexivity.
+  - cbn [fold_left]. destruct c as [ps|body|ws| |n a body]; cbn [citem_after fst snd];
+      try (rewrite IH; reflexivity).
+    rewrite IH. unfold paras_of. cbn [flat_map app map]. rewrite <- !app_assoc. reflexivity.
 Qed.
 
 Lemma fold_citem_after_true : forall cs,
   fst (fold_left citem_after cs ([], true)) = join_nl (map para_text (paras_of cs)).
 Proof.
   induction cs as [|c cs IH]; [reflexivity|].
-  cbn [fold_left]. destruct c as [ps|body]; cbn [citem_after fst snd].
-  - rewrite fold_citem_after_false. unfold paras_of. cbn [flat_map app map fst].
-    rewrite join_nl_cons. reflexivity.
-  - exact IH.
+  cbn [fold_left]. destruct c as [ps|body|ws| |n a body]; cbn [citem_after fst snd]; try exact IH.
+  rewrite fold_citem_after_false. unfold paras_of. cbn [flat_map app map fst].
+  rewrite join_nl_cons. reflexivity.
 Qed.
 
 Definition cell_name_ok (cname : str) : Prop := cname = o_cell \/ cname = o_covered.
@@ -1494,6 +1572,51 @@ Proof.
   intros cname extra [cs|s cs] rest Hc He Hl; cbn [legal_ods_full ods_text] in *.
   - apply ods_space_paragraph_roundtrip; assumption.
   - apply ods_string_value_attr; assumption.
+Qed.
+
+(* what is not a paragraph contributes nothing: indentation, comments, annotations, the drawing
+   objects anchored to the cell with all the paragraphs they hold *)
+Definition is_para (c : citem) : bool := match c with CPara _ => true | _ => false end.
+
+Lemma paras_of_app : forall a b, paras_of (a ++ b) = paras_of a ++ paras_of b.
+Proof. intros a b. unfold paras_of. apply flat_map_app. Qed.
+
+Theorem ods_nonpara_contributes_nothing : forall cs1 c cs2,
+  is_para c = false -> content_text (cs1 ++ c :: cs2) = content_text (cs1 ++ cs2).
+Proof.
+  intros cs1 c cs2 H. unfold content_text. rewrite !paras_of_app.
+  destruct c; try discriminate; reflexivity.
+Qed.
+
+(* the reading of a phonetic guide contributes nothing, its base everything it holds *)
+Theorem ods_ruby_text_contributes_nothing : forall ps1 st body ps2,
+  para_text (ps1 ++ ORubyText st body :: ps2) = para_text (ps1 ++ ps2).
+Proof. intros. unfold para_text. rewrite !flat_map_app. reflexivity. Qed.
+
+Theorem ods_ruby_is_its_base : forall st base rst body,
+  para_text (ORubyOpen st :: ORubyBaseOpen :: base ++ [ORubyBaseClose; ORubyText rst body; ORubyClose]) =
+  para_text base.
+Proof.
+  intros. unfold para_text. cbn [flat_map opiece_text app]. rewrite flat_map_app.
+  cbn [flat_map opiece_text app]. rewrite app_nil_r. reflexivity.
+Qed.
+
+(* two arrangements of the same paragraphs — flat or indented at every level, with or without
+   anchored drawing objects, comments, an annotation — read the same *)
+Theorem ods_layout_independent : forall cname extra1 extra2 cs1 cs2 rest1 rest2,
+  cell_name_ok cname -> legal_extra extra1 = true -> legal_extra extra2 = true ->
+  legal_content cs1 = true -> legal_content cs2 = true ->
+  map para_text (paras_of cs1) = map para_text (paras_of cs2) ->
+  exists t,
+    ods_cell cname (ods_cell_attrs extra1 (OsContent cs1)) (ods_cell_events cname (OsContent cs1) ++ rest1)
+      = Ok (OString t, [], rest1) /\
+    ods_cell cname (ods_cell_attrs extra2 (OsContent cs2)) (ods_cell_events cname (OsContent cs2) ++ rest2)
+      = Ok (OString t, [], rest2).
+Proof.
+  intros cname extra1 extra2 cs1 cs2 rest1 rest2 Hc He1 He2 Hl1 Hl2 Hp.
+  exists (content_text cs1). split.
+  - apply ods_space_paragraph_roundtrip; assumption.
+  - unfold content_text. rewrite Hp. apply ods_space_paragraph_roundtrip; assumption.
 Qed.
 
 (* ---------- every string has an encoding in the style of LibreOffice ---------- *)
@@ -1620,15 +1743,21 @@ Qed.
 
 Lemma od_step_no_boom : forall cn val st e, od_step cn val st e <> Boom.
 Proof.
-  intros cn val st e. destruct st as [s first|s first|d]; destruct e as [n a|n|t|t|]; cbn [od_step];
-    try discriminate.
+  intros cn val st e. destruct st as [s first paras|s first paras|nm d s first paras|d];
+    destruct e as [n a|n|t|t|]; cbn [od_step]; try discriminate.
   - destruct (str_eqb n o_annot); [discriminate|].
+    destruct (skipped_subtree n); [discriminate|].
     destruct (str_eqb n o_p); [destruct first; discriminate|].
     destruct (str_eqb n o_s).
     + destruct (get_attribute a o_c) as [c|]; [|discriminate]. destruct (parse_i32 c); discriminate.
     + destruct (str_eqb n o_tab); [discriminate|]. destruct (str_eqb n o_break); discriminate.
-  - destruct (str_eqb n o_cell || str_eqb n o_covered); discriminate.
+  - destruct (str_eqb n o_p); [discriminate|].
+    destruct (str_eqb n o_cell || str_eqb n o_covered); discriminate.
+  - destruct (0 <? paras); discriminate.
+  - destruct (0 <? paras); discriminate.
   - destruct (str_eqb n o_annot); discriminate.
+  - destruct (str_eqb n nm); discriminate.
+  - destruct (str_eqb n nm); [|discriminate]. destruct (d =? 0); discriminate.
   - destruct (str_eqb n cn); discriminate.
   - destruct (str_eqb n cn); [|discriminate]. destruct (d =? 0); discriminate.
 Qed.
@@ -1712,8 +1841,8 @@ Proof.
   intros cname a evs. unfold ods_cell.
   destruct (ods_attrs a false false OEmpty []) as [[[is_string is_set] val] formula].
   destruct (negb is_set && is_string).
-  - destruct (od_run_total cname val evs (OdMain [] true)) as [H1 H2].
-    destruct (od_run cname val (OdMain [] true) evs); cbn [obind]; try (split; discriminate); tauto.
+  - destruct (od_run_total cname val evs (OdMain [] true 0)) as [H1 H2].
+    destruct (od_run cname val (OdMain [] true 0) evs); cbn [obind]; try (split; discriminate); tauto.
   - destruct (od_run_total cname val evs (OdSkip 0)) as [H1 H2].
     destruct (od_run cname val (OdSkip 0) evs); cbn [obind]; try (split; discriminate); tauto.
 Qed.
